@@ -104,7 +104,7 @@ impl WTClient {
             std::process::exit(1);
         });
 
-        let dbm = DBM::new(&data_dir.join("watchtowers_db.sql3")).unwrap();
+        let mut dbm = DBM::new(&data_dir.join("watchtowers_db.sql3")).unwrap();
 
         let (user_sk, user_id) = if let Some(sk) = dbm.load_client_key() {
             (
@@ -118,7 +118,32 @@ impl WTClient {
             (sk, UserId(pk))
         };
 
-        let towers = dbm.load_towers();
+        let mut towers = dbm.load_towers();
+        // The outcome of a retry is recorded first (the receipt, or the appointment as invalid) and the pending entry is
+        // deleted afterwards. If the client went down in between, the appointment is on record twice: finish the job.
+        for (tower_id, tower) in towers.iter_mut() {
+            // (the receipt kept for a misbehaving tower is the proof of it, not an acknowledgement)
+            if tower.status.is_misbehaving() {
+                continue;
+            }
+            let settled = tower
+                .pending_appointments
+                .iter()
+                .filter(|locator| {
+                    tower.invalid_appointments.contains(locator)
+                        || dbm.load_appointment_receipt(*tower_id, **locator).is_some()
+                })
+                .cloned()
+                .collect::<Vec<_>>();
+            for locator in settled {
+                dbm.delete_pending_appointment(*tower_id, locator).unwrap();
+                tower.pending_appointments.remove(&locator);
+            }
+            if tower.pending_appointments.is_empty() && tower.status.is_temporary_unreachable() {
+                tower.status = TowerStatus::Reachable;
+            }
+        }
+
         for (tower_id, tower) in towers.iter() {
             if tower.status.is_temporary_unreachable() {
                 unreachable_towers
